@@ -20,6 +20,8 @@ CLAIMED = {
                 note="Same trusted base as C04; that join() returns is liveness (C06).", ref="4/C05"),
     "C17": dict(text="Rely/guarantee over DelayedQueue._lock with a ghost put-history: every section of put/get/remove/close preserves the lock invariant (proved at each release and wait entry) and stays within the rely; get() hands out the oldest remaining element exactly once, a delayed one never before insert time + delay, a head removed meanwhile is not returned, None only after close(); remove() hands out the first match exactly once; signalling discipline of close()/put().",
                 note="E7 (Lock, Condition.wait atomic release/re-acquire), time.time non-decreasing (reals), atomic attribute store, distinct elements. 'A blocked get() returns after close()' is liveness: only the signalling discipline is proved.", ref="4/C17"),
+    "C16": dict(text="SkipRepeatsQueue under the queue mutex: invariant relating _last_item to a ghost enqueue history (None, or the last enqueued item which is still waiting); _put/_get preserve it and stay within the rely; _get is FIFO and forgets the last item iff that very item is taken out; put() drops only when, at its read of _last_item, the item equals the last enqueued, still-waiting item, and otherwise hands the item to Queue.put exactly once.",
+                note="E6 (queue.Queue put/get are critical sections calling _put/_get), atomic attribute loads, items' == is an equivalence. The equality law of event objects is decided structurally (dataclass lemmas from the AST) plus a bounded all-pairs battery, not by SMT.", ref="4/C16"),
 }
 
 NOT_APPLICABLE = {
